@@ -310,6 +310,20 @@ Proof.
   - vm_compute. intros [H|[]]. discriminate.
 Qed.
 
+(* the same formula in 64-bit unsigned arithmetic is not exact either once k*d >= 2^64
+   (100 MHz * 1000/1001, present-day index) *)
+Lemma u64_writer_refuted :
+  exists c k, cfg_ok c /\ 0 <= k < 2 ^ 63 /\
+    w_file_ts U64Wrap c k <> round_down (k * rd c / rn c) (fc c) /\
+    ~ In (w_path U64Wrap c k) (candidates Exact c k k).
+Proof.
+  exists (mkCfg 100000000000 1001 60 3600), 169830173826173834. split; [|split; [|split]].
+  - unfold cfg_ok; cbn. lia.
+  - lia.
+  - vm_compute. discriminate.
+  - vm_compute. intros [H|[]]. discriminate.
+Qed.
+
 (* non-vacuity: the witness under the exact arithmetic *)
 Example exact_on_witness :
   w_path Exact wit_cfg wit_k = (1499997600, 1500000012) /\
